@@ -17,4 +17,7 @@ def aggregate_use_numba (truth : Term → Bool) : Out :=
 /-- the decorators of dataiter/aggregate.py: use_numba, outermost first -/
 def aggregate_use_numba_decorators : List String := []
 
+/-- the signature of dataiter/aggregate.py: use_numba: parameters in order, with the source text of their defaults -/
+def aggregate_use_numba_signature : List String := ["x"]
+
 end DI.Gen
